@@ -310,11 +310,18 @@ REPLAY_WHAT = {1: 'the IR semantics gets stuck', 2: 'oracle answers left over', 
 
 
 def _coq_z(k):
-    return '(%d)%%Z' % k
+    # hexadecimal literals: Coq's number notation converts them to Z much faster than decimal ones
+    return '(%s0x%x)%%Z' % ('-' if k < 0 else '', abs(k))
+
+
+_CONTS = {}      # interned position contents of the cases file being written: literal -> name (each is defined once per file)
 
 
 def _coq_cont(c):
-    return '[' + '; '.join('[' + '; '.join(core.coq_okey(k) for k in row) + ']' for row in c) + ']'
+    lit = '[' + '; '.join('[' + '; '.join('None' if k is None else '(Some %s)' % _coq_z(k) for k in row) + ']' for row in c) + ']'
+    if lit not in _CONTS:
+        _CONTS[lit] = 'k%d' % len(_CONTS)
+    return _CONTS[lit]
 
 
 def _coq_answer(a):
@@ -374,9 +381,29 @@ def _replay_data(ctx):
         with open(cpath + '.tmp', 'w') as f:
             json.dump(data, f)
         os.replace(cpath + '.tmp', cpath)
-        for old in sorted((os.path.join(cdir, f) for f in os.listdir(cdir)), key=os.path.getmtime)[:-12]:
+        for old in sorted((os.path.join(cdir, f) for f in os.listdir(cdir)), key=os.path.getmtime)[:-40]:
             os.remove(old)
     return data, ''
+
+
+def _replay_verdicts_cached(vtext, store=None):
+    """The verdicts of one cases file are a function of its text, of the regenerated programs and of the hand-written theories it
+    imports; they are reused across the IR properties of one run (C01, C02, C03, C07, C20 evaluate the same file)."""
+    import hashlib
+    import json
+    h = hashlib.sha256(vtext.encode())
+    for f in ('Gen/Programs.v', 'Model/IR.v', 'Model/IRSem.v', 'Model/Clip.v', 'Base/FloatKey.v'):
+        h.update(open(os.path.join(core.THEORIES, f), 'rb').read())
+    path = os.path.join(core.WORK, 't2state_cache', 'verdicts-%s.json' % h.hexdigest()[:24])
+    if store is not None:
+        with open(path + '.tmp%d' % os.getpid(), 'w') as fh:
+            json.dump([list(t) for t in store], fh)
+        os.replace(path + '.tmp%d' % os.getpid(), path)
+        return store
+    try:
+        return [tuple(t) for t in json.load(open(path))]
+    except (OSError, ValueError):
+        return None
 
 
 def _describe(c, code, i, j):
@@ -387,8 +414,8 @@ def _describe(c, code, i, j):
     if code == 1:
         k = j
         src = c['plan'][c['osrc'][k]] if k < len(c['osrc']) else 'end of the oracle'
-        what += ' in iteration %d of %d after consuming %d of %d oracle answers (next answer: %s from %s)' % (
-            i, c['T'], k, len(c['oracle']), c['oracle'][k][0] if k < len(c['oracle']) else '-', src)
+        what += (' in the prelude' if i == 0 else ' in iteration %d of %d; the part before it consumed %d of %d oracle answers (the next one, %s, '
+                 'comes from %s)' % (i, c['T'], k, len(c['oracle']), c['oracle'][k][0] if k < len(c['oracle']) else '-', src))
     elif code == 2:
         k = len(c['oracle']) - i
         what += ': %d of %d (first unused answer from %s)' % (i, len(c['oracle']), c['plan'][c['osrc'][k]] if 0 <= k < len(c['osrc']) else '?')
@@ -398,7 +425,8 @@ def _describe(c, code, i, j):
         what += ': model %d, implementation %d' % (i, j)
     elif code >= 6:
         what += ' (%s%s)' % ('final state' if i >= nd else 'record %d of %d' % (i, nd), ', index %d' % j if code in (6, 7, 10, 11) else '')
-    return '%s N=%d T=%d %s/%s box=%s seed=%d: %s' % (c['optimizer'], c['N'], c['T'], c['space'], c['objective'], c['box'], c['seed'], what)
+    return '%s N=%d T=%d %s/%s box=%s%s seed=%d: %s' % (c['optimizer'], c['N'], c['T'], c['space'], c['objective'], c['box'],
+                                                     ' hyperparams=%s' % c['hyperparams'] if c.get('hyperparams') else '', c['seed'], what)
 
 
 def state_replay(ctx, meta):
@@ -414,16 +442,20 @@ def state_replay(ctx, meta):
     per_file = 200
     for k in range(0, len(cases), per_file):
         chunk = cases[k:k + per_file]
-        v = [REPLAY_PRELUDE]
-        for n, c in enumerate(chunk):
-            v.append('Definition case_%d :=\n %s.' % (k + n, _coq_case(c)))
+        _CONTS.clear()
+        body = ['Definition case_%d :=\n %s.' % (k + n, _coq_case(c)) for n, c in enumerate(chunk)]
+        v = [REPLAY_PRELUDE] + ['Definition %s : contents := %s.' % (name, lit) for lit, name in _CONTS.items()] + body
         v.append('Goal True. let r := eval vm_compute in [%s] in idtac "@@R" r "@@E". exact I. Qed.' % '; '.join('case_%d' % (k + n) for n in range(len(chunk))))
-        ok, cout = ctx.coq_eval('\n'.join(v) + '\n', 'cases_t2state_%d' % (k // per_file), timeout=1500)
-        m = re.search(r'@@R(.*?)@@E', cout, re.S) if ok else None
-        trip = re.findall(r'\(\s*(\d+)\s*,\s*(\d+)\s*,\s*(\d+)\s*\)', m.group(1)) if m else []
-        if not ok or len(trip) != len(chunk):
-            ctx.oblige('T2 state replay: recorded runs evaluate in Coq (file %d)' % (k // per_file), False, cout[-2500:])
-            continue
+        vtext = '\n'.join(v) + '\n'
+        trip = _replay_verdicts_cached(vtext)
+        if trip is None or len(trip) != len(chunk):
+            ok, cout = ctx.coq_eval(vtext, 'cases_t2state_%d' % (k // per_file), timeout=1500)
+            m = re.search(r'@@R(.*?)@@E', cout, re.S) if ok else None
+            trip = re.findall(r'\(\s*(\d+)\s*,\s*(\d+)\s*,\s*(\d+)\s*\)', m.group(1)) if m else []
+            if not ok or len(trip) != len(chunk):
+                ctx.oblige('T2 state replay: recorded runs evaluate in Coq (file %d)' % (k // per_file), False, cout[-2500:])
+                continue
+            _replay_verdicts_cached(vtext, trip)
         for n, t in enumerate(trip):
             verdict[k + n] = tuple(int(x) for x in t)
     kinds, per_opt = {}, {}
